@@ -76,13 +76,15 @@ fn exec(c: &Case) -> Vec<String> {
         for h in &r.hosts {
             match h {
                 None => out.push("blocked".to_string()),
-                Some(Err(m)) => {
-                    if is_infra(m) {
-                        infra = true;
+                Some(ho) => {
+                    if let Err(m) = &ho.exec {
+                        if is_infra(m) {
+                            infra = true;
+                        }
+                        out.push(format!("panic:{}", classify_panic(m)));
                     }
-                    out.push(format!("panic:{}", classify_panic(m)));
+                    nsinks = nsinks.max(ho.sinks.len());
                 }
-                Some(Ok(s)) => nsinks = nsinks.max(s.len()),
             }
         }
         if infra && attempt == 0 {
@@ -100,8 +102,8 @@ fn exec(c: &Case) -> Vec<String> {
         for s in 0..nsinks {
             let mut published: Vec<Vec<Vec<i64>>> = vec![];
             for h in &r.hosts {
-                if let Some(Ok(sinks)) = h {
-                    if let Some(Some(v)) = sinks.get(s) {
+                if let Some(ho) = h {
+                    if let Some(Some(v)) = ho.sinks.get(s) {
                         published.push(v.clone());
                     }
                 }
